@@ -461,6 +461,7 @@ impl Session {
                         out.insert("seized".into(), json!(true));
                         out.insert("dr7".into(), json!(dr7));
                         out.insert("text_diff".into(), json!(self.text_diff(pid)));
+                        out.insert("foreign_text_diff".into(), json!(self.foreign_text_diff(pid)));
                         let _ = nix::sys::ptrace::detach(p, None);
                         }
                     }
@@ -539,6 +540,7 @@ impl Session {
                     }
                 }
                 let text_diff = self.text_diff(pid);
+                let foreign_text_diff = self.foreign_text_diff(pid);
                 // run to completion (the process is a child of this worker)
                 let t0 = std::time::Instant::now();
                 let mut code: Option<i32> = early;
@@ -563,7 +565,7 @@ impl Session {
                     }
                     last_len = n;
                 }
-                json!({"ok": true, "tasks": tasks, "text_diff": text_diff, "exit_code": code, "stdout": String::from_utf8_lossy(&self.out.lock().unwrap()).to_string()})
+                json!({"ok": true, "tasks": tasks, "text_diff": text_diff, "foreign_text_diff": foreign_text_diff, "exit_code": code, "stdout": String::from_utf8_lossy(&self.out.lock().unwrap()).to_string()})
             }
             "c04_sweep" => {
                 let fns: Vec<String> = serde_json::from_value(cmd["fns"].clone()).unwrap_or_default();
@@ -877,6 +879,40 @@ impl Session {
             }
         }
         Value::Object(o)
+    }
+
+    /// Executable file-backed mappings of every OTHER object (interpreter, libraries) against
+    /// their files: (path, address, byte in the file, byte in memory).
+    pub fn foreign_text_diff(&self, pid: i32) -> Vec<Value> {
+        let mut diff = vec![];
+        let Ok(mem) = std::fs::File::open(format!("/proc/{pid}/mem")) else {
+            return diff;
+        };
+        let maps = std::fs::read_to_string(format!("/proc/{pid}/maps")).unwrap_or_default();
+        let exe = std::fs::canonicalize(&self.exe).map(|p| p.display().to_string()).unwrap_or(self.exe.clone());
+        for l in maps.lines() {
+            let parts: Vec<&str> = l.split_whitespace().collect();
+            if parts.len() < 6 || !parts[1].contains('x') || !parts[5].starts_with('/') || parts[5] == exe {
+                continue;
+            }
+            let (a, b) = parts[0].split_once('-').unwrap_or(("0", "0"));
+            let (a, b) = (u64::from_str_radix(a, 16).unwrap_or(0), u64::from_str_radix(b, 16).unwrap_or(0));
+            let off = u64::from_str_radix(parts[2], 16).unwrap_or(0);
+            let Ok(file) = std::fs::File::open(parts[5]) else { continue };
+            let len = (b - a) as usize;
+            let mut fb = vec![0u8; len];
+            let n = file.read_at(&mut fb, off).unwrap_or(0);
+            let mut mb = vec![0u8; n];
+            if mem.read_exact_at(&mut mb, a).is_err() {
+                continue;
+            }
+            for i in 0..n {
+                if fb[i] != mb[i] && diff.len() < 16 {
+                    diff.push(json!({"path": parts[5], "addr": a + i as u64, "file": fb[i], "mem": mb[i]}));
+                }
+            }
+        }
+        diff
     }
 
     pub fn text_diff(&self, pid: i32) -> Vec<(u64, u8, u8)> {
